@@ -630,10 +630,10 @@ def loads_section(rep, tier, seed, rng):
            "GeometryConsistent"]
     cfg = ("SPECIFICATION EmitSpec\nCONSTANTS Tier = \"%s\"\nDev = {}\n%sCHECK_DEADLOCK FALSE\n"
            % (tier, "".join("INVARIANT %s\n" % i for i in inv)))
-    mc = run_tlc("c18-mcl", "MC_ShellLoads", cfg, workers=16, timeout=3000)
+    mc = run_tlc("c18-mcl", "MC_ShellLoads", cfg, workers=16, timeout=3000, heap="3g" if tier == "quick" else "6g")
     rep.add_tlc("MC_ShellLoads", mc)
     if not mc.ok:
-        rep.machinery("TLC on MC_ShellLoads failed: " + mc.errors() + mc.out[-1500:])
+        rep.machinery("TLC on MC_ShellLoads failed (rc=%s): %s %s" % (mc.rc, mc.errors(), mc.out[-1500:]))
         return
     reqs = [load_req(v[1]) for v in printed_values(mc.out, "REQ")]
     if len(reqs) < 500:
